@@ -132,7 +132,7 @@ PROPS = {
         'not_decided': ['Command.handle as a whole (option parsing, I/O) - only its gate callee is under contract'],
     },
     'C09': {
-        'families': ['contracts.graph'],
+        'families': ['contracts.graph', 'contracts.graph_edges'],
         'level': 'proof',
         'technique': 'contract-based deductive verification: VCs from the real AST (incl. DFS loop invariants), z3/cvc5',
         'text': 'Contracts on DependencyGraph (add_node, add_dependency, remove_dependencies, finalize, get_node, '
